@@ -14,7 +14,7 @@ CONSTANTS
   MintTo = {"", "u3"}
   TransferTo = {"u2", "feepool"}
   MaxTokens = 1
-  InitStake = 9
+  InitStake = 7
   BaseFee = 5
   TaxNum = 2
   TaxDen = 5
